@@ -46,8 +46,8 @@ theorem aligned_of_static (sim : Sim) (s s1 : State) (hal : LabelsAligned sim s)
 theorem ginv_of_failed (sim : Sim) (s s1 : State) (h : GInv sim s) (hheap : HeapStatic s.heap s1.heap)
     (hat : s1.atoms = s.atoms) (hlp : s1.ctx.lastPos = s.ctx.lastPos) (ha : s1.ctx.addedIdx = [])
     (hd : s1.ctx.deletedIdx = []) (hda : s1.ctx.deletedAtoms = []) (hsv : s1.ctx.savedFixed = none)
-    (hde : s1.ctx.delta = 0) (htm : s1.ctx.template = s.ctx.template) : GInv sim s1 :=
-  ⟨⟨by rw [hlp, hat]; exact h.invg.lastPos, ha, hd, hda, hsv, by rw [hat]; exact h.invg.fixedOK⟩, hde,
+    (hde : s1.ctx.delta = 0) (htm : s1.ctx.template = s.ctx.template) (hsz : s1.ctx.addedSizes = []) : GInv sim s1 :=
+  ⟨⟨by rw [hlp, hat]; exact h.invg.lastPos, ha, hd, hda, hsv, by rw [hat]; exact h.invg.fixedOK, hsz⟩, hde,
    aligned_of_static sim s s1 h.aligned hheap (by rw [hat]), by rw [htm]; exact h.templ⟩
 
 /-- `revert_state` that restores the atoms re-establishes the invariant -/
@@ -68,28 +68,32 @@ theorem ginv_of_save (sim : Sim) (he : sim.ens = .grand) (s s1 : State) (h : GIn
     (hlen : s1.atoms.rows.length + s1.ctx.deletedIdx.length = s.atoms.rows.length + s1.ctx.addedIdx.length) :
     GInv sim (saveState sim s1) := by
   have hsa : (saveState sim s1).atoms = s1.atoms := by simp [saveState, he, ctxSave]
-  have hsh : (saveState sim s1).heap = notifyRefs (tableRefs sim) s1.ctx.addedIdx s1.ctx.deletedIdx s1.heap := by
+  have hsh : (saveState sim s1).heap =
+      notifyParts (tableRefs sim) s1.ctx.addedSizes s1.ctx.addedIdx s1.ctx.deletedIdx s1.heap := by
     simp [saveState, he, ctxSave, tableRefs]
   refine ⟨⟨by simp [saveState, he, ctxSave], by simp [saveState, he, ctxSave], by simp [saveState, he, ctxSave],
-           by simp [saveState, he, ctxSave], by simp [saveState, he, ctxSave], by rw [hsa]; exact hfx⟩,
+           by simp [saveState, he, ctxSave], by simp [saveState, he, ctxSave], by rw [hsa]; exact hfx,
+           by simp [saveState, he, ctxSave]⟩,
           by simp [saveState, he, ctxSave], ?_, by simp [saveState, he, ctxSave, htm]; exact h.templ⟩
   intro r' hr' hlt hlb
   have hnd' : (tableRefs sim).Nodup := nodup_eraseDups' _
   have hlen' : (saveState sim s1).heap.length = s1.heap.length := by
-    rw [hsh]; exact (notifyRefs_shape _ _ _ _).1
+    rw [hsh]; exact (notifyParts_shape _ _ _ _ _).1
   have hlt1 : r' < s1.heap.length := by rw [← hlen']; exact hlt
   have hlt0 : r' < s.heap.length := by rw [← hheap.1]; exact hlt1
   have hst := hheap.2 r'
   have hk1 : (s1.heap.getD r' { kind := .user }).kind = (s.obj r').kind := hst.1
   have hl1 : (s1.heap.getD r' { kind := .user }).labels = (s.obj r').labels := hst.2.1
   have hobj : (saveState sim s1).obj r' =
-      (notifyRefs (tableRefs sim) s1.ctx.addedIdx s1.ctx.deletedIdx s1.heap).getD r' { kind := .user } := by
+      (notifyParts (tableRefs sim) s1.ctx.addedSizes s1.ctx.addedIdx s1.ctx.deletedIdx s1.heap).getD r'
+        { kind := .user } := by
     simp [State.obj, hsh]
   have hlb1 : labelBearing (s1.heap.getD r' { kind := .user }).kind = true := by
-    rw [hobj, notify_kind] at hlb; exact hlb
+    rw [hobj, notifyParts_kind] at hlb; exact hlb
   have hlb0 : labelBearing (s.obj r').kind = true := by rw [← hk1]; exact hlb1
   have hal0 := h.aligned r' hr' hlt0 hlb0
-  have := notify_aligned (tableRefs sim) s1.ctx.addedIdx s1.ctx.deletedIdx s1.heap s.atoms.rows.length hnd' hnd hv
+  have := notifyParts_aligned (tableRefs sim) s1.ctx.addedSizes s1.ctx.addedIdx s1.ctx.deletedIdx s1.heap
+    s.atoms.rows.length hnd' hnd hv
     r' hr' hlt1 hlb1 (by rw [hl1]; exact hal0)
   rw [hobj, hsa]
   omega
@@ -173,12 +177,13 @@ theorem compExch_call_spec (sim : Sim) (he : sim.ens = .grand) (rs : List Nat) (
       have hK0 := hzero hn
       subst hK0
       have hat : res.2.atoms = s.atoms := atoms_of_addInv_zero _ _ _ hK
-      refine ⟨ginv_of_failed sim s res.2 h hheap hat f1 ?_ ?_ ?_ ?_ ?_ f5, hat, by rw [hch, hn]; rfl⟩
+      refine ⟨ginv_of_failed sim s res.2 h hheap hat f1 ?_ ?_ ?_ ?_ ?_ f5 ?_, hat, by rw [hch, hn]; rfl⟩
       · have := hK.added; simpa using this
       · rw [f2]; exact h.invg.noDeleted
       · rw [f3]; exact h.invg.noDeletedAtoms
       · rw [f4]; exact h.invg.noSaved
       · rw [hdelta, h.delta0, hn]; rfl
+      · rw [hK.sizes0 rfl]; exact h.invg.noSizes
     · intro ht
       simpa [ht] using hrest
     · intro ht
@@ -206,7 +211,8 @@ theorem compExch_call_spec (sim : Sim) (he : sim.ens = .grand) (rs : List Nat) (
       · intro _
         refine ⟨ginv_of_failed sim s res.2 h hheapS hat (by rw [hctx]) (by rw [hctx]; exact h.invg.noAdded)
           (by rw [hctx]; exact h.invg.noDeleted) (by rw [hctx]; exact h.invg.noDeletedAtoms)
-          (by rw [hctx]; exact h.invg.noSaved) (by rw [hctx]; exact h.delta0) (by rw [hctx]), hat,
+          (by rw [hctx]; exact h.invg.noSaved) (by rw [hctx]; exact h.delta0) (by rw [hctx])
+          (by rw [hctx]; exact h.invg.noSizes), hat,
           by rw [hch, hlabs]; rfl⟩
       · intro ht; rw [hokf] at ht; cases ht
       · intro ht; rw [hokf] at ht; cases ht
@@ -416,7 +422,7 @@ theorem compExch_rows_single (sim : Sim) (he : sim.ens = .grand) (rs : List Nat)
     omega
 
 theorem ginv_of_inp (sim : Sim) (s : State) (i : Inputs) (h : GInv sim s) : GInv sim ({ s with inp := i } : State) :=
-  ⟨⟨h.invg.1, h.invg.2, h.invg.3, h.invg.4, h.invg.5, h.invg.6⟩, h.delta0, h.aligned, h.templ⟩
+  ⟨⟨h.invg.1, h.invg.2, h.invg.3, h.invg.4, h.invg.5, h.invg.6, h.invg.7⟩, h.delta0, h.aligned, h.templ⟩
 
 /-! ### the label arrays after the trial; the hypotheses reproduce themselves -/
 
@@ -425,31 +431,32 @@ theorem onAtomsChangedObj_labels_congr (m m' : MoveObj) (a r : List Nat) (hl : m
     (onAtomsChangedObj m' a r).labels = (onAtomsChangedObj m a r).labels := by
   simp [onAtomsChangedObj, hl, hd]
 
-/-- **what the trial does to the move objects**: number, kinds and configured labels are kept; ONE notification
-    `on_atoms_changed(added, removed)` is applied to the label array of every label-bearing object of the table (the same
-    for all of them; `[] []` when the trial is not accepted), every other label array is untouched. -/
+/-- **what the trial does to the move objects**: number, kinds and configured labels are kept; the notifications
+    `on_atoms_changed(added, removed)` of the trial — ONE PER INSERTED PARTICLE, the removed rows in the last one — are applied
+    to the label array of every label-bearing object of the table (the same for all of them; none when the trial is not
+    accepted), every other label array is untouched. -/
 theorem compExch_trial_heap (sim : Sim) (he : sim.ens = .grand) (rs : List Nat) (b : Nat) (v : Bool) (s : State)
     (L : List Int) (h : GInv sim s) (hL : ∀ r ∈ rs, (s.obj r).labels = L)
     (hlen : L.length = s.atoms.rows.length) :
-    ∃ added removed : List Nat,
+    ∃ sizes added removed : List Nat,
       (trial sim (.compExch rs b) v s).2.heap.length = s.heap.length ∧
       ∀ r, ((trial sim (.compExch rs b) v s).2.obj r).kind = (s.obj r).kind ∧
         ((trial sim (.compExch rs b) v s).2.obj r).defaultLabel = (s.obj r).defaultLabel ∧
         ((trial sim (.compExch rs b) v s).2.obj r).labels =
           if r ∈ tableRefs sim ∧ r < s.heap.length ∧ labelBearing (s.obj r).kind = true
-          then (onAtomsChangedObj (s.obj r) added removed).labels else (s.obj r).labels := by
+          then (onPartsObj (s.obj r) sizes added removed).labels else (s.obj r).labels := by
   have sp := compExch_call_spec sim he rs b s L h hL hlen
   rw [trial_eq]
   generalize callTree (.compExch rs b) s = res at sp ⊢
   have static : ∀ s1 : State, HeapStatic s.heap s1.heap →
-      ∃ added removed : List Nat, s1.heap.length = s.heap.length ∧
+      ∃ sizes added removed : List Nat, s1.heap.length = s.heap.length ∧
         ∀ r, (s1.obj r).kind = (s.obj r).kind ∧ (s1.obj r).defaultLabel = (s.obj r).defaultLabel ∧
           (s1.obj r).labels =
             if r ∈ tableRefs sim ∧ r < s.heap.length ∧ labelBearing (s.obj r).kind = true
-            then (onAtomsChangedObj (s.obj r) added removed).labels else (s.obj r).labels := by
+            then (onPartsObj (s.obj r) sizes added removed).labels else (s.obj r).labels := by
     intro s1 hs
-    refine ⟨[], [], hs.1, fun r => ⟨(hs.2 r).1, (hs.2 r).2.2, ?_⟩⟩
-    rw [onAtomsChangedObj_nil, ite_self]
+    refine ⟨[], [], [], hs.1, fun r => ⟨(hs.2 r).1, (hs.2 r).2.2, ?_⟩⟩
+    rw [onPartsObj_nil, ite_self]
     exact (hs.2 r).2.1
   cases hok : res.1 with
   | false => simp only [Bool.false_eq_true, if_false]; exact static _ sp.heap
@@ -461,22 +468,23 @@ theorem compExch_trial_heap (sim : Sim) (he : sim.ens = .grand) (rs : List Nat) 
     | true =>
       simp only [if_true]
       have hsh : (saveState sim res.2).heap =
-          notifyRefs (tableRefs sim) res.2.ctx.addedIdx res.2.ctx.deletedIdx res.2.heap := by
+          notifyParts (tableRefs sim) res.2.ctx.addedSizes res.2.ctx.addedIdx res.2.ctx.deletedIdx res.2.heap := by
         simp [saveState, he, ctxSave, tableRefs]
       have hnd : (tableRefs sim).Nodup := nodup_eraseDups' _
-      refine ⟨res.2.ctx.addedIdx, res.2.ctx.deletedIdx, ?_, fun r => ?_⟩
-      · rw [hsh]; exact ((notifyRefs_shape _ _ _ _).1).trans sp.heap.1
+      refine ⟨res.2.ctx.addedSizes, res.2.ctx.addedIdx, res.2.ctx.deletedIdx, ?_, fun r => ?_⟩
+      · rw [hsh]; exact ((notifyParts_shape _ _ _ _ _).1).trans sp.heap.1
       · have hobj : (saveState sim res.2).obj r =
-            (notifyRefs (tableRefs sim) res.2.ctx.addedIdx res.2.ctx.deletedIdx res.2.heap).getD r
+            (notifyParts (tableRefs sim) res.2.ctx.addedSizes res.2.ctx.addedIdx res.2.ctx.deletedIdx res.2.heap).getD r
               { kind := .user } := by simp [State.obj, hsh]
         have hst := sp.heap.2 r
         have hk : (res.2.heap.getD r { kind := .user }).kind = (s.obj r).kind := hst.1
         have hl : (res.2.heap.getD r { kind := .user }).labels = (s.obj r).labels := hst.2.1
         have hdl : (res.2.heap.getD r { kind := .user }).defaultLabel = (s.obj r).defaultLabel := hst.2.2
-        rw [hobj, notifyRefs_spec _ _ _ _ hnd r, sp.heap.1, hk]
+        rw [hobj, notifyParts_spec _ _ _ _ _ hnd r, sp.heap.1, hk]
         by_cases hc : r ∈ tableRefs sim ∧ r < s.heap.length ∧ labelBearing (s.obj r).kind = true
         · rw [if_pos hc, if_pos hc]
-          exact ⟨hk, hdl, onAtomsChangedObj_labels_congr _ _ _ _ hl hdl⟩
+          exact ⟨(onPartsObj_static _ _ _ _).1.trans hk, (onPartsObj_static _ _ _ _).2.trans hdl,
+            onPartsObj_labels_congr _ _ _ _ _ hl hdl⟩
         · rw [if_neg hc, if_neg hc]
           exact ⟨hk, hdl, hl⟩
 
@@ -509,7 +517,7 @@ theorem compMembers_trial (sim : Sim) (he : sim.ens = .grand) (rs : List Nat) (b
     (L : List Int) (h : GInv sim s) (hL : ∀ r ∈ rs, (s.obj r).labels = L)
     (hlen : L.length = s.atoms.rows.length) (rs' : List Nat) (hm : CompMembers sim s rs') :
     CompMembers sim (trial sim (.compExch rs b) v s).2 rs' := by
-  obtain ⟨added, removed, hlenH, hobj⟩ := compExch_trial_heap sim he rs b v s L h hL hlen
+  obtain ⟨sizes, added, removed, hlenH, hobj⟩ := compExch_trial_heap sim he rs b v s L h hL hlen
   have hcond : ∀ r ∈ rs', r ∈ tableRefs sim ∧ r < s.heap.length ∧ labelBearing (s.obj r).kind = true := by
     intro r hr
     obtain ⟨hk, ht, hl⟩ := hm.member r hr
@@ -521,7 +529,7 @@ theorem compMembers_trial (sim : Sim) (he : sim.ens = .grand) (rs : List Nat) (b
   · intro r hr r' hr'
     obtain ⟨hsl, hsd⟩ := hm.shared r hr r' hr'
     rw [(hobj r).2.2, (hobj r').2.2, if_pos (hcond r hr), if_pos (hcond r' hr'), (hobj r).2.1, (hobj r').2.1]
-    exact ⟨onAtomsChangedObj_labels_congr _ _ _ _ hsl hsd, hsd⟩
+    exact ⟨onPartsObj_labels_congr _ _ _ _ _ hsl hsd, hsd⟩
 
 /-! ### mixed grand-canonical histories with composite exchange trials -/
 
@@ -639,7 +647,7 @@ def c5xState (inp : Inputs) : State :=
 
 theorem c5x_ginv (inp : Inputs) : GInv c5xSim (c5xState inp) := by
   have h0 : GInv c5xSim (c5xState {}) := by
-    refine ⟨⟨rfl, rfl, rfl, rfl, rfl, ?_⟩, rfl, ?_, ?_⟩
+    refine ⟨⟨rfl, rfl, rfl, rfl, rfl, ?_, rfl⟩, rfl, ?_, ?_⟩
     · simp [FixedOK, c5xState]
     · unfold LabelsAligned; decide
     · simp [c5xState]
@@ -674,13 +682,13 @@ example : ¬ c5xDel.inp.draw.1 < 500 ∧
     (trial c5xSim (.compExch [0, 1] 500) true c5xDel).2.ctx.delta = 0 := by decide
 
 -- accepted composite insertion: two particles come, five atoms, every label array of the table has five labels
--- (the two new particles share one label: the recorded finding `composite_insertion_shares_label`), counter 3 → 5
+-- (one new label per particle: the driver notifies once per inserted particle), counter 3 → 5
 example : c5xIns.inp.draw.1 < 500 ∧
     (trial c5xSim (.compExch [0, 1] 500) true c5xIns).1 = .accepted ∧
     compExchInserted [0, 1] c5xIns = 2 ∧ compExchChange [0, 1] 500 c5xIns [0, 1, 2] = 2 ∧
     (trial c5xSim (.compExch [0, 1] 500) true c5xIns).2.atoms.rows.length = 5 ∧
     ((trial c5xSim (.compExch [0, 1] 500) true c5xIns).2.heap.map (·.labels)) =
-      [[0, 1, 2, 3, 3], [0, 1, 2, 3, 3], [7, 7, -1, 8, 8]] ∧
+      [[0, 1, 2, 3, 4], [0, 1, 2, 3, 4], [7, 7, -1, 8, 9]] ∧
     (trial c5xSim (.compExch [0, 1] 500) true c5xIns).2.ctx.nExch = 5 ∧
     (trial c5xSim (.compExch [0, 1] 500) true c5xIns).2.ctx.delta = 0 := by decide
 
@@ -710,7 +718,7 @@ example : YHistoryOK c5xSim c5xHistory (c5xState {}) := by
 
 example : netChangeY c5xSim c5xHistory (c5xState {}) = -1 ∧
     (runY c5xSim c5xHistory (c5xState {})).ctx.nExch = 2 ∧
-    ((runY c5xSim c5xHistory (c5xState {})).heap.map (·.labels)) = [[3, 3], [3, 3], [0, 0]] ∧
+    ((runY c5xSim c5xHistory (c5xState {})).heap.map (·.labels)) = [[3, 4], [3, 4], [0, 1]] ∧
     (runY c5xSim c5xHistory (c5xState {})).atoms.rows.length = 2 := by decide
 
 /-! ### limits of the hypotheses (concrete witnesses) -/
@@ -728,18 +736,17 @@ def c5yState (dflt : Option Int) (inp : Inputs) : State :=
 theorem shared_labelling_needs_equal_defaults :
     ((trial c5ySim (.compExch [0, 1] 500) true
         (c5yState (some 0) { draws := [0], ops := [(1,2,3), (3,2,1)], checks := [true, true] })).2.heap.map (·.labels))
-      = [[0, 1, 2, 2], [0, 1, 0, 0]] := by decide
+      = [[0, 1, 2, 3], [0, 1, 0, 0]] := by decide
 
-/-- consequence of the recorded finding `composite_insertion_shares_label` for the counter: the accepted composite
-    insertion of two one-atom particles moves the counter 2 → 4 (4 atoms), but both new atoms carry ONE label, so the next
-    accepted single deletion takes both atoms away and moves the counter to 3 — with 2 atoms left. The hypothesis
-    "every label on at most one atom" of `compExch_rows_single` is thus not reproduced by a composite insertion. -/
-theorem counter_drifts_after_composite_insertion :
+/-- the counter follows the atoms through a composite insertion (it used to drift: `composite_insertion_shares_label_pinned`):
+    the accepted composite insertion of two one-atom particles moves the counter 2 → 4 (4 atoms, labels 0 1 2 3), and the next
+    accepted single deletion takes ONE atom away and moves the counter to 3 — with 3 atoms left. -/
+theorem counter_follows_after_composite_insertion :
     let s1 := (trial c5ySim (.compExch [0, 1] 500) true
         (c5yState none { draws := [0], ops := [(1,2,3), (3,2,1)], checks := [true, true] })).2
     let s2 := (trial c5ySim (.leaf 0) true { s1 with inp := { draws := [999, 2] } }).2
-    (s1.atoms.rows.length, s1.ctx.nExch) = (4, 4) ∧ (s1.obj 0).labels = [0, 1, 2, 2] ∧
-    (s2.atoms.rows.length, s2.ctx.nExch) = (2, 3) ∧ (s2.obj 0).labels = [0, 1] := by decide
+    (s1.atoms.rows.length, s1.ctx.nExch) = (4, 4) ∧ (s1.obj 0).labels = [0, 1, 2, 3] ∧
+    (s2.atoms.rows.length, s2.ctx.nExch) = (3, 3) ∧ (s2.obj 0).labels = [0, 1, 3] := by decide
 
 end MM
 
